@@ -43,6 +43,34 @@ type wT struct {
 	B     int    `json:"b"`
 	Ext   string `json:"ext,omitempty"`
 	Other string `json:"other_key,omitempty"`
+	// Entry: "" = Cipher.DecryptFromBuffer; "message" = EncryptedMessage.Decode followed by Cipher.Decrypt
+	// (the copying decoder, as the test server does).
+	Entry string `json:"entry,omitempty"`
+	// After: "" = fresh cipher value, message struct and buffer; "valid" = the cipher value, the
+	// EncryptedMessage struct and the bin.Buffer (same backing array) that decrypt the attack have just
+	// decrypted a valid message for the same receiver (same key holder, same side, same payload length).
+	After string `json:"after,omitempty"`
+}
+
+// decryptor is one receiving party with the objects it keeps between messages.
+type decryptor struct {
+	ciph  crypto.Cipher
+	key   crypto.AuthKey
+	entry string
+	buf   bin.Buffer
+	msg   crypto.EncryptedMessage
+}
+
+func (d *decryptor) decrypt(wire []byte) (*crypto.EncryptedMessageData, error) {
+	d.buf.Reset()
+	d.buf.Put(wire)
+	if d.entry == "message" {
+		if err := d.msg.Decode(&d.buf); err != nil {
+			return nil, err
+		}
+		return d.ciph.Decrypt(d.key, &d.msg)
+	}
+	return d.ciph.DecryptFromBuffer(d.key, &d.buf)
 }
 
 var (
@@ -139,9 +167,15 @@ func errKind(err error) string {
 
 func flip(b []byte, bit int) { b[bit/8] ^= 1 << (bit % 8) }
 
-func evalBase(w wBase) kit.Result {
-	b := buildBase(w)
-	got, err := receiver(w.Dir).DecryptFromBuffer(holder(w.Key), &bin.Buffer{Buf: append([]byte(nil), b.wire...)})
+type wBaseE struct {
+	wBase
+	Entry string `json:"entry,omitempty"`
+}
+
+func evalBase(w wBaseE) kit.Result {
+	b := buildBase(w.wBase)
+	d := decryptor{ciph: receiver(w.Dir), key: holder(w.Key), entry: w.Entry}
+	got, err := d.decrypt(b.wire)
 	if err != nil || got == nil {
 		// not what C05 is about (that is C04), but then every rejection below would be vacuous
 		baseRejected.Add(1)
@@ -160,6 +194,8 @@ func evalT(w wT) kit.Result {
 	m := append([]byte(nil), b.wire...)
 	key := holder(w.Key)
 	ciph := receiver(w.Dir)
+	// prior: a valid message for the party that is going to see the attack
+	prior := w.wBase
 	switch w.Op {
 	case "flip1":
 		flip(m, w.A)
@@ -192,10 +228,15 @@ func evalT(w wT) kit.Result {
 		copy(m[y:y+16], t)
 	case "reflect":
 		ciph = sender(w.Dir)
+		if prior.Dir = "s2c"; w.Dir == "s2c" {
+			prior.Dir = "c2s"
+		}
 	case "otherkey":
 		key = holder(w.Other)
+		prior.Key = w.Other
 	case "forgeid":
 		key = holder(w.Other)
+		prior.Key = w.Other
 		copy(m[:8], key.ID[:])
 	default:
 		panic("unknown op " + w.Op)
@@ -207,18 +248,36 @@ func evalT(w wT) kit.Result {
 	if (w.Op == "otherkey" || w.Op == "forgeid") && key.Value == holder(w.Key).Value {
 		return kit.Result{Trivial: true, Outcome: "identity"}
 	}
-	got, err := ciph.DecryptFromBuffer(key, &bin.Buffer{Buf: m})
+	d := decryptor{ciph: ciph, key: key, entry: w.Entry}
+	sfx, lbl := "", ""
+	if w.Entry != "" {
+		sfx, lbl = ":entry="+w.Entry, w.Entry+":"
+	}
+	switch w.After {
+	case "":
+	case "valid":
+		sfx, lbl = sfx+":after-valid", lbl+"after-valid:"
+		pb := buildBase(prior)
+		if g0, err := d.decrypt(pb.wire); err != nil || g0 == nil || !bytes.Equal(g0.Data(), pb.payload) {
+			// the party does not even accept its valid message (C04's subject): nothing to learn from this history
+			baseRejected.Add(1)
+			return kit.Result{Trivial: true, Outcome: "PRIOR-REJECTED"}
+		}
+	default:
+		panic("unknown history " + w.After)
+	}
+	got, err := d.decrypt(m)
 	if err == nil {
 		if got == nil {
-			return kit.Bad("nil-nil:"+w.Op, "(nil, nil) returned")
+			return kit.Bad("nil-nil:"+w.Op+sfx, "(nil, nil) returned")
 		}
-		return kit.Bad("accepted:"+w.Op, "message accepted: salt=%d session=%d msg_id=%d seq=%d len=%d data=%d bytes",
+		return kit.Bad("accepted:"+w.Op+sfx, "message accepted: salt=%d session=%d msg_id=%d seq=%d len=%d data=%d bytes",
 			got.Salt, got.SessionID, got.MessageID, got.SeqNo, got.MessageDataLen, len(got.MessageDataWithPadding))
 	}
 	if got != nil {
-		return kit.Bad("data-with-error:"+w.Op, "error %q returned together with a message (msg_id=%d, %d data bytes)", err, got.MessageID, len(got.MessageDataWithPadding))
+		return kit.Bad("data-with-error:"+w.Op+sfx, "error %q returned together with a message (msg_id=%d, %d data bytes)", err, got.MessageID, len(got.MessageDataWithPadding))
 	}
-	return kit.OKo(w.Op + "->" + errKind(err))
+	return kit.OKo(lbl + w.Op + "->" + errKind(err))
 }
 
 func main() {
@@ -234,6 +293,8 @@ func main() {
 			"plus every bit of the message x every bit of the first and of the last body block for key sha:c05-a with minimal padding); thorough: every value of each of the first 40 bytes and of the last 16; " +
 			"every truncation length 0..len-1; 1..48 bytes appended (zero, ff, stream, copy of the last block) or prepended (zero, stream); every swap of two body blocks; " +
 			"reflection to the producing side; decryption by the holder of another key; auth_key_id forged to the other key's id. " +
+			"Every attack is run through both entry points {Cipher.DecryptFromBuffer, EncryptedMessage.Decode + Cipher.Decrypt} and in both histories {fresh objects, the same Cipher value / EncryptedMessage struct / bin.Buffer " +
+			"(same backing array) that have just decrypted a valid message for that party: the base itself, for reflection the opposite-direction message, for other-key attacks a message under the other key}. " +
 			"Oracle: error and nil result. Cases whose modification leaves the bytes unchanged are trivial (not counted). distinct = distinct non-trivial witnesses.")
 		c.Assume("reference encryptor (lib/refcrypto) written from the MTProto 2.0 description; a tampered message passing the 128-bit msg_key check by chance is treated as impossible")
 
@@ -247,12 +308,24 @@ func main() {
 				}
 			}
 		}
+		entries := []string{"", "message"}
 		for _, b := range bases {
-			fb.Eval(b)
+			for _, e := range entries {
+				fb.Eval(wBaseE{b, e})
+			}
 		}
 		total, done := 0, 0
 		for _, b := range bases {
-			ws := attacks(b, c.Thorough())
+			ws0 := attacks(b, c.Thorough())
+			ws := make([]wT, 0, 4*len(ws0))
+			for _, e := range entries {
+				for _, after := range []string{"", "valid"} {
+					for _, w := range ws0 {
+						w.Entry, w.After = e, after
+						ws = append(ws, w)
+					}
+				}
+			}
 			total += len(ws)
 			if c.Expired() {
 				continue
